@@ -528,6 +528,12 @@ func c08Worker(args []string) int {
 	nplace, _ := strconv.Atoi(args[3])
 	seed, _ := strconv.ParseInt(args[4], 10, 64)
 	out, root := args[5], args[6]
+	var scheds [][]cstep
+	if len(args) > 7 {
+		if b, err := os.ReadFile(args[7]); err == nil {
+			json.Unmarshal(b, &scheds)
+		}
+	}
 	f, err := os.Create(out)
 	if err != nil {
 		fmt.Fprintln(os.Stderr, err)
@@ -535,14 +541,20 @@ func c08Worker(args []string) int {
 	}
 	defer f.Close()
 	enc := json.NewEncoder(f)
-	for i := shard; i < nfree+nplace; i += nshards {
+	for i := shard; i < nfree+nplace+len(scheds); i += nshards {
 		var h *chist
 		var err error
 		fmt.Fprintf(os.Stderr, "C08-HIST %d\n", i)
 		if i < nfree {
 			h, err = freeRun(i, seed, root)
-		} else {
+		} else if i < nfree+nplace {
 			h, err = placement(i, seed, root)
+		} else {
+			var drift bool
+			h, drift, err = replayConcSchedule(i, scheds[i-nfree-nplace], root)
+			if drift {
+				fmt.Fprintf(os.Stderr, "C08-DRIFT %d\n", i)
+			}
 		}
 		if err != nil {
 			fmt.Fprintf(os.Stderr, "C08-HANG %d %v\n", i, err)
@@ -608,6 +620,24 @@ func runC08(r *SeqRun) {
 	}
 	nfree, nplace := tierN(r.Tier, 500, 50000), tierN(r.Tier, 2400, 200000)
 	nshards := 14
+	schedFile := filepath.Join(r.Scratch, "conc-schedules.json")
+	if scheds, nstates, err := concSchedulesFromSpec("concgen_q.cfg", r.Scratch, 20*time.Minute); err != nil {
+		r.infra("KlevConc schedule generator: %v", err)
+		return
+	} else {
+		max := tierN(r.Tier, 1500, len(scheds))
+		if len(scheds) > max { // seeded stride
+			var sel [][]cstep
+			step := float64(len(scheds)) / float64(max)
+			for i := 0; i < max; i++ {
+				sel = append(sel, scheds[int(float64(r.Seed%5)/5*step+float64(i)*step)%len(scheds)])
+			}
+			scheds = sel
+		}
+		b, _ := json.Marshal(scheds)
+		os.WriteFile(schedFile, b, 0o644)
+		r.GenStates, r.NGen = nstates, len(scheds)
+	}
 	var wg sync.WaitGroup
 	for s := 0; s < nshards; s++ {
 		wg.Add(1)
@@ -615,10 +645,18 @@ func runC08(r *SeqRun) {
 			defer wg.Done()
 			out := filepath.Join(r.Scratch, fmt.Sprintf("lin-%02d.ndjson", s))
 			cmd := exec.Command(race, "c08-worker", strconv.Itoa(s), strconv.Itoa(nshards), strconv.Itoa(nfree), strconv.Itoa(nplace),
-				strconv.FormatInt(r.Seed, 10), out, r.Scratch)
+				strconv.FormatInt(r.Seed, 10), out, r.Scratch, schedFile)
 			cmd.Env = append(os.Environ(), "GORACE=halt_on_error=0")
 			ob, err := cmd.CombinedOutput()
 			serr := string(ob)
+			r.mu.Lock()
+			r.Drift += strings.Count(serr, "C08-DRIFT ")
+			r.mu.Unlock()
+			for _, ln := range strings.Split(serr, "\n") {
+				if strings.HasPrefix(ln, "DRIFT-DETAIL") {
+					fmt.Println(ln)
+				}
+			}
 			if strings.Contains(serr, "WARNING: DATA RACE") {
 				// the race detector's report is a verdict of its own (C08: "there is no data race")
 				idx := strings.Index(serr, "WARNING: DATA RACE")
